@@ -522,6 +522,7 @@ pub fn nest(d: &GDict, r: &mut Rng, depth: usize, inner: Option<GA>) -> GA {
 pub struct Out<'a> {
     pub w: &'a mut dyn Write,
     pub cases: usize,
+    pub clis: usize,
 }
 impl<'a> Out<'a> {
     pub fn case(&mut self, label: &str) {
@@ -529,6 +530,15 @@ impl<'a> Out<'a> {
         self.cases += 1;
     }
     pub fn line(&mut self, l: &str) {
+        // every third client scenario is run by an application that looks at each response future once, then hands it to
+        // another task which waits for it there (`amode 1`)
+        if l.starts_with("cli ") {
+            self.clis += 1;
+            if self.clis % 3 == 2 {
+                writeln!(self.w, "amode 1\n{}\namode 0", l).unwrap();
+                return;
+            }
+        }
         writeln!(self.w, "{}", l).unwrap();
     }
     pub fn lines(&mut self, ls: &[String]) {
@@ -1932,8 +1942,19 @@ fn gen_c07(o: &mut Out, r: &mut Rng, d: &GDict, tier: &str) {
         lens.push(r.below(1 << 24) as usize);
     }
     let _ = d;
+    let mut pairs: Vec<(u8, usize)> = vec![];
     for l in lens {
         for b0 in [1u8, 0, 0xff] {
+            pairs.push((b0, l));
+        }
+    }
+    // what a peer speaking another protocol sends first (a text request line, an SSH banner, a TLS record header, blank
+    // lines): to this reader these are four octets like any other - a version octet and an announced length
+    for p in [b"GET ", b"POST", b"SSH-", b"HTTP", b"HEAD", b"PRI ", b"CONN", b"\r\n\r\n", b"\x16\x03\x01\x02", b"\x16\x03\x03\x00", b"    ", b"~~~~", b"0000", b"\x01AAA", b"\x01 ~ "] {
+        pairs.push((p[0], ((p[1] as usize) << 16) | ((p[2] as usize) << 8) | p[3] as usize));
+    }
+    for (b0, l) in pairs {
+        {
             let mut pre = vec![b0];
             pre.extend(&(l as u32).to_be_bytes()[1..]);
             // a header that would be acceptable if the length were honest
@@ -2006,6 +2027,12 @@ fn gen_c08(o: &mut Out, r: &mut Rng, d: &GDict, tier: &str, cuts: bool) {
             o.case(&format!("listener tls={}", tls));
             o.line(&format!("lsn tls={} good=2 reqs=6 fault=none when=during nfaulty=0 hold={}", tls, if thorough { 35 } else { 11 }));
         }
+        // pipelined requests with large answers, the last request failing in the handler, a peer that is slow to read: what
+        // was answered before the failure still arrives when the server ends the connection
+        for (tls, n, kib) in [(0, 6, 700), (1, 4, 300), (0, 3, 64)] {
+            o.case(&format!("listener pipeline tls={} n={} kib={}", tls, n, kib));
+            o.line(&format!("lsnpipe tls={} n={} kib={}", tls, n, kib));
+        }
         // answers far beyond the size of anything read: 1 MiB + 4 and 3 MiB (the read limit is no write limit)
         let oc = d.by_type(T_OCT)[0].code;
         for big in [(1usize << 20) - 28, (1 << 20) - 24, 3 << 20] {
@@ -2075,6 +2102,13 @@ fn gen_c08(o: &mut Out, r: &mut Rng, d: &GDict, tier: &str, cuts: bool) {
                     _ => random_wscript(r, total_ans),
                 };
                 o.line(&format!("serve {} {} {}", all_ok.join(","), rd, wr));
+                // the same with a handler that takes its time (it awaits something before it answers) while the rest of
+                // the stream - further requests, the end of the stream - is already there
+                if v != 1 {
+                    let slow: Vec<String> = all_ok.iter().enumerate().map(|(i, t)| format!("{}{}", t, ["~y1", "~40", "", "~y3", "~300000", "~11000"][(i + v) % 6])).collect();
+                    setup(o, r);
+                    o.line(&format!("serve {} {} {}", slow.join(","), rd, wr));
+                }
             }
             // long silences (virtual minutes) inside the first octets of a frame, inside a body and between frames: an
             // idle peer is not a faulty one
@@ -2169,6 +2203,18 @@ fn gen_c08(o: &mut Out, r: &mut Rng, d: &GDict, tier: &str, cuts: bool) {
                         _ => format!("{},f", if p == 0 { "p".to_string() } else { format!("d:{}", hex(head)) }),
                     };
                     o.line(&format!("serve {} {} {}", all_ok.join(","), rd, "-"));
+                    // ... with a handler that is still busy when the end of the stream arrives
+                    if mode != 1 {
+                        let slow: Vec<String> = all_ok.iter().enumerate().map(|(i, t)| format!("{}{}", t, ["~y1", "~300", "~y2", "~11000"][(i + p) % 4])).collect();
+                        setup(o, r);
+                        o.line(&format!("serve {} {} {}", slow.join(","), rd, "-"));
+                    }
+                    // ... and with a long silence somewhere before the cut (an idle peer is not a faulty one)
+                    if mode == 0 && p >= 2 {
+                        let c = 1 + (p * 7 + 3) % (p - 1);
+                        setup(o, r);
+                        o.line(&format!("serve {} d:{},t:{},d:{},e -", all_ok.join(","), hex(&head[..c]), [12500u64, 61000, 6000][p % 3], hex(&head[c..])));
+                    }
                 }
             }
             // large requests (beyond any buffer size a reader might special-case), the last AVP with 1..3 octets of padding:
@@ -2293,6 +2339,19 @@ fn gen_c13(o: &mut Out, _r: &mut Rng, tier: &str) {
                             let cmd = [272u32, 257, 280, 282][id % 4];
                             o.case(&format!("cell ctls={} verify={} stls={} cert={} addr={}", ctls, verify, stls, cert, addr));
                             o.line(&format!("tls ctls={} verify={} stls={} cert={} addr={} id={} cmd={}", ctls, verify, stls, cert, addr, id, cmd));
+                            if stls == 1 && ctls == 0 && cert == "good" {
+                                // several clear-text peers arriving at the same moment
+                                id += 1;
+                                o.case(&format!("cell ctls={} verify={} stls={} cert={} addr={} burst=6", ctls, verify, stls, cert, addr));
+                                o.line(&format!("tls ctls={} verify={} stls={} cert={} addr={} id={} cmd={} burst=6", ctls, verify, stls, cert, addr, id, cmd));
+                            }
+                            if cert == "wrongname" && stls == 1 && ctls == 1 {
+                                // the other kind of wrong name: a certificate for the right ADDRESS where a host name was
+                                // asked for, for the right NAME where an address was
+                                id += 1;
+                                o.case(&format!("cell ctls={} verify={} stls={} cert={} addr={} wn=1", ctls, verify, stls, cert, addr));
+                                o.line(&format!("tls ctls={} verify={} stls={} cert={} addr={} id={} cmd={} wn=1", ctls, verify, stls, cert, addr, id, cmd));
+                            }
                         }
                     }
                 }
@@ -2511,6 +2570,43 @@ fn gen_reuse(o: &mut Out, r: &mut Rng, d: &GDict, tier: &str, uid: &mut u32) {
     }
 }
 
+/// a request that cannot be encoded (the wire cannot carry one of its values) among ordinary ones: its `send_message`
+/// fails, nothing of it reaches the stream, and the requests before and after it are answered as if it had never been tried
+fn gen_badsend(o: &mut Out, r: &mut Rng, d: &GDict, tier: &str, uid: &mut u32) {
+    for k in 0..(if tier == "thorough" { 200 } else { 16 }) {
+        let n = 2 + (k % 3) as usize;
+        let bad = k % n;
+        let mut ids: Vec<u32> = vec![];
+        while ids.len() < n {
+            let h = r.next() as u32;
+            if !ids.contains(&h) {
+                ids.push(h);
+            }
+        }
+        let lens: Vec<usize> = (0..n).map(|_| *r.pick(&[0usize, 5, 40])).collect();
+        let sends: Vec<String> = (0..n).map(|i| if i == bad { format!("{}:{}:0:b", ids[i], lens[i]) } else { format!("{}:{}", ids[i], lens[i]) }).collect();
+        let mut rd = vec![];
+        let mut ans = vec![];
+        let mut acc = 0;
+        for i in 0..n {
+            if i == bad {
+                continue;
+            }
+            acc += request_size(lens[i]);
+            *uid += 1;
+            // answers come late (all requests are out) or eagerly (as soon as the request is)
+            rd.push(format!("w:{}", if k % 2 == 0 { acc } else { (0..n).filter(|j| *j != bad).map(|j| request_size(lens[j])).sum() }));
+            let f = answer_frame(r, d, ids[i], *uid);
+            let sm = r.below(5);
+            rd.extend(seg(r, &f, sm));
+            ans.push(format!("{}:{}", ids[i], *uid));
+        }
+        rd.push(if k % 3 == 0 { "e".into() } else { "s".to_string() });
+        o.case(&format!("client badsend n={} bad={} expect=good silent={}", n, bad, (k % 3 != 0) as u8));
+        o.line(&format!("cli {} {} {} {} -", sends.join(","), rd.join(","), if k % 4 == 1 { "a3,p,a9,p" } else { "-" }, ans.join(",")));
+    }
+}
+
 /// back-pressure in both directions: the stream takes the next request only after the client has read the answers the peer
 /// has already sent (a peer that finishes its batch of answers before it reads on). Sender and reader must not wait for
 /// each other.
@@ -2633,6 +2729,43 @@ fn gen_c12(o: &mut Out, r: &mut Rng, d: &GDict, tier: &str) {
                 let late = if p % 3 == 0 { (9000000 + p).to_string() } else { "-".to_string() };
                 o.case(&format!("client cut={} end={} n={} expect=any silent=0", p, end, n));
                 o.line(&format!("cli {} {} {} {} {}", sends.join(","), rd.join(","), if p % 2 == 0 { "-" } else { "a5,p,p" }, ans.join(","), late));
+            }
+        }
+        // (1c) messages nobody asked for - requests of the peer's own (watchdog, re-auth), K of them in a row - in front of,
+        // between or behind the answers, then the end of the stream: whatever the client makes of them, every future
+        // completes
+        if ci < 6 || thorough {
+            for (fi, k) in [1usize, 2, 31, 32, 33, 40, 100, 300].iter().enumerate() {
+                for place in 0..3 {
+                    let mut rd = vec![format!("w:{}", total)];
+                    let mut all: Vec<String> = vec![];
+                    let flood: Vec<(Vec<u8>, String)> = (0..*k).map(|j| {
+                        let h = 880000 + (ci * 1000 + j) as u32;
+                        uid += 1;
+                        let m = GM { version: 1, flags: 0x80, cmd: [280u32, 258, 274][j % 3], app: 0, hbh: h, e2e: uid, avps: vec![] };
+                        (m.encode(&mut None), format!("{}:{}", h, uid))
+                    }).collect();
+                    let cut = match place { 0 => 0, 1 => frames.len() / 2, _ => frames.len() };
+                    for (i, f) in frames.iter().enumerate() {
+                        if i == cut {
+                            for (ff, a) in &flood {
+                                rd.push(format!("d:{}", hex(ff)));
+                                all.push(a.clone());
+                            }
+                        }
+                        rd.push(format!("d:{}", hex(f)));
+                        all.push(ans[i].clone());
+                    }
+                    if cut == frames.len() {
+                        for (ff, a) in &flood {
+                            rd.push(format!("d:{}", hex(ff)));
+                            all.push(a.clone());
+                        }
+                    }
+                    rd.push(if (fi + place) % 2 == 0 { "e".into() } else { "f".to_string() });
+                    o.case(&format!("client unsolicited k={} place={} n={} expect=any silent=0", k, place, n));
+                    o.line(&format!("cli {} {} - {} -", sends.join(","), rd.join(","), all.join(",")));
+                }
             }
         }
         // (2) one corrupted answer at every position (unknown command code; unknown AVP; oversized announcement)
@@ -3297,7 +3430,7 @@ fn gen_c17(o: &mut Out, r: &mut Rng, tier: &str) {
 pub fn generate(family: &str, seed: u64, tier: &str, extra: &[String], w: &mut dyn Write) {
     let mut r = Rng::new(seed ^ family.bytes().fold(0u64, |a, b| a.wrapping_mul(131).wrapping_add(b as u64)));
     let thorough = tier == "thorough";
-    let mut o = Out { w, cases: 0 };
+    let mut o = Out { w, cases: 0, clis: 0 };
     let d0 = dict0();
     match family {
         "c01" | "c18" | "c16h" => {
@@ -3482,6 +3615,7 @@ pub fn generate(family: &str, seed: u64, tier: &str, extra: &[String], w: &mut d
             gen_c11(&mut o, &mut r, &d0, tier);
             let mut uid = 700000u32;
             gen_reuse(&mut o, &mut r, &d0, tier, &mut uid);
+            gen_badsend(&mut o, &mut r, &d0, tier, &mut uid);
             gen_backpressure(&mut o, &mut r, &d0, tier, &mut uid);
             gen_ctcp(&mut o, &mut r, tier, false);
         }
@@ -3494,6 +3628,7 @@ pub fn generate(family: &str, seed: u64, tier: &str, extra: &[String], w: &mut d
             gen_c12(&mut o, &mut r, &d0, tier);
             let mut uid = 800000u32;
             gen_reuse(&mut o, &mut r, &d0, tier, &mut uid);
+            gen_badsend(&mut o, &mut r, &d0, tier, &mut uid);
             gen_backpressure(&mut o, &mut r, &d0, tier, &mut uid);
             gen_ctcp(&mut o, &mut r, tier, true);
         }
